@@ -126,14 +126,31 @@ func (b *builderOptions) Build() (*Biscuit, error) {
 	if v := b.rootKeyID; v != nil {
 		opts = append(opts, WithRootKeyID(*v))
 	}
+
+	// the token gets its own copy of everything, so that the builder can be
+	// used (and built) again without changing tokens it has already produced
+	baseSymbols := make(datalog.SymbolTable, b.symbolsStart)
+	copy(baseSymbols, (*b.symbols)[:b.symbolsStart])
+	newSymbols := make(datalog.SymbolTable, b.symbols.Len()-b.symbolsStart)
+	copy(newSymbols, (*b.symbols)[b.symbolsStart:])
+
+	facts := make(datalog.FactSet, len(*b.facts))
+	copy(facts, *b.facts)
+
+	rules := make([]datalog.Rule, len(b.rules))
+	copy(rules, b.rules)
+
+	checks := make([]datalog.Check, len(b.checks))
+	copy(checks, b.checks)
+
 	return newBiscuit(
 		b.rootKey,
-		b.symbols,
+		&baseSymbols,
 		&Block{
-			symbols: b.symbols.SplitOff(b.symbolsStart),
-			facts:   b.facts,
-			rules:   b.rules,
-			checks:  b.checks,
+			symbols: &newSymbols,
+			facts:   &facts,
+			rules:   rules,
+			checks:  checks,
 			context: b.context,
 			version: MaxSchemaVersion,
 		},
